@@ -111,6 +111,9 @@ type SrvConn struct {
 	NReq   int
 	NRsp   int
 	ReadErr error
+	// OnPartial, if set, is called when a read leaves an incomplete frame buffered; true = the
+	// peer dies now (the connection is closed with the rest of the request unread)
+	OnPartial func(sc *SrvConn, buffered int) bool
 }
 
 // Server is a scripted peer on the simulated network.
@@ -191,6 +194,10 @@ func (sc *SrvConn) readLoop() {
 			if h != nil {
 				h(sc, req, raw)
 			}
+		}
+		if len(buf) > 0 && !illegal && sc.OnPartial != nil && sc.OnPartial(sc, len(buf)) {
+			sc.Close()
+			return
 		}
 		if illegal {
 			sc.Srv.mu.Lock()
